@@ -23,7 +23,7 @@ from sa.templates import C, INT, SYM, Pred, match
 from sa.loader import AnalysisError
 from sa import tables
 from sa import families
-from sa.timeidiom import check_time_sites, is_utc_seconds
+from sa.timeidiom import check_time_sites, check_time_readers, is_utc_seconds
 
 noinline = lambda f: False  # noqa: E731
 
@@ -434,6 +434,13 @@ def run(rep, prog, tier):
     # C18.3 publen: the length term computed for a private object is the term its public sibling's __len__ computes
     f, tbl = tables.keymaterial_table(prog)
     fields = prog.module('pgpy.packet.fields')
+    # every public-key algorithm of RFC 4880 9.1 / RFC 6637 / the EdDSA draft has its own key-material class on both sides: an
+    # algorithm that silently falls back to the opaque container is fingerprinted over octets nobody parsed (frozen RFC table)
+    for a in RFC_KEY_ALGORITHMS:
+        have = [side for side, pubflag in (('public', True), ('private', False)) if (pubflag, a) in tbl]
+        rep.check(len(have) == 2, 'C18.3', 'PubKeyV4.pkalg_int', 'algorithm %s implemented for: %s' % (a, have or 'neither side'),
+                  'algorithm %s must be served by its own key-material class for public and private packets, not by the opaque fallback' % a,
+                  where=f.where, expected='public and private class', found=have, scenario=a)
     algs = sorted(set(a for (_, a) in tbl))
     for a in algs:
         if (True, a) not in tbl or (False, a) not in tbl:
@@ -481,7 +488,10 @@ def run(rep, prog, tier):
     check_received_codes(rep, prog, 'C18.11')
     # C18.5 time idiom
     check_time_sites(rep, prog, 'C18.5', only=('PubKeyV4.fingerprint', 'PubKeyV4.__bytearray__'))
+    check_time_readers(rep, prog, 'C18.5', 'pgpy.packet.packets', 'PubKeyV4', 'created')
 
+
+RFC_KEY_ALGORITHMS = ('RSAEncryptOrSign', 'RSAEncrypt', 'RSASign', 'DSA', 'ElGamal', 'FormerlyElGamalEncryptOrSign', 'ECDSA', 'ECDH', 'EdDSA')
 
 LEN_POLICY = lambda f: f.name in ('__len__', 'publen')  # noqa: E731
 
